@@ -26,16 +26,20 @@ theorem whole_fixpoint (useHex : Int → Bool) (m : Module)
 
 /-- non-vacuity: the samples of the three fragments put together — a recursive struct type `%N`, a packed constant global `@g`, a global
     `@c = global i32 5`, the function `@f` of `core3Sample`, a function `@h` whose body loads from and stores to `@c`, converts the address of the
-    function `@f` and calls it, and the metadata section `metaSample` — form a module that meets every hypothesis -/
+    function `@f`, calls it and calls the declared function `@ext`, the declaration `declare void @ext(i32 %0)`, and the metadata section `metaSample` — form a module that meets every hypothesis -/
 def hSample : Core3.Func :=
   ⟨.int 32, [104], [],
    [⟨.id 0, [⟨some (.id 1), 23, [.ty (.int 32), .tyval (.ptr (.int 32) 0) (.glob [99]), .align (some 4)]⟩,
             ⟨some (.id 2), 39, [.tyval (.ptr (.func (.int 32) (.cons (.int 32) (.cons (.int 32) .nil)) false) 0) (.glob [102]), .ty (.int 64)]⟩,
             ⟨none, 24, [.tyval (.int 32) (.loc (.id 1)), .tyval (.ptr (.int 32) 0) (.glob [99]), .align none]⟩,
-            ⟨some (.id 3), 75, [.ty (.int 32), .val (.glob [102]), .tyvals [(.int 32, .loc (.id 1)), (.int 32, .const (.int 7))]]⟩],
+            ⟨some (.id 3), 75, [.ty (.int 32), .val (.glob [102]), .tyvals [(.int 32, .loc (.id 1)), (.int 32, .const (.int 7))]]⟩,
+            ⟨none, 74, [.val (.glob [101, 120, 116]), .tyvals [(.int 32, .loc (.id 3))]]⟩],
       ⟨none, 26, [.retv (some (.int 32, .loc (.id 1)))]⟩⟩]⟩
 
-def wholeSample : Module := ⟨sample.typedefs, sample.globals ++ [⟨[99], false, .int 32, .int 5⟩], [core3Sample, hSample], metaSample⟩
+/-- `declare void @ext(i32 %0)` -/
+def extSample : Core3.Func := ⟨.void, [101, 120, 116], [(.int 32, .id 0)], []⟩
+
+def wholeSample : Module := ⟨sample.typedefs, sample.globals ++ [⟨[99], false, .int 32, .int 5⟩], [core3Sample, hSample, extSample], metaSample⟩
 
 example : Core2.WF ⟨wholeSample.typedefs, wholeSample.globals⟩ := by
   refine ⟨?_, ?_, ?_, by decide, by decide, by decide⟩
@@ -48,7 +52,7 @@ example : Core2.WF ⟨wholeSample.typedefs, wholeSample.globals⟩ := by
 example : Core2.sortDefs wholeSample.typedefs = wholeSample.typedefs := by
   simp [wholeSample, sample, Core2.sortDefs, Natsort.sort, Natsort.insert]
 example : ∀ f ∈ wholeSample.funcs, Core3.wfIn (genvOf wholeSample.globals wholeSample.funcs) f = true := by
-  intro f hf; simp [wholeSample] at hf; rcases hf with rfl | rfl <;> decide +kernel
+  intro f hf; simp [wholeSample] at hf; rcases hf with rfl | rfl | rfl <;> decide +kernel
 example : Meta.wf wholeSample.md = true := by decide +kernel
 example : crossOK wholeSample = true := by decide +kernel
 
